@@ -90,7 +90,7 @@ class Face(ElementBase):
             corners = list(range(4))
 
         for corner in corners:
-            self.edges[corner] = Line()
+            self.add_edge(corner, None)
 
     def project_edge(self, corner: int, label: ProjectToType) -> None:
         """Adds a Project edge or add the label to an existing one"""
